@@ -39,6 +39,19 @@ func hs13Variants() []c02Variant {
 		{Name: "v13-hrr-mtu300", V13: true, HRR: true, MTU: 300}, // small hellos, fragmented server flight
 		{Name: "v13-mtu300", V13: true, MTU: 300},
 		{Name: "v13-mtu120", V13: true, MTU: 120},
+		// dual-stack client (MinVersion 1.2, MaxVersion 1.3): the version is negotiated before the state machine starts
+		{Name: "v13-dualc", V13: true},                      // x dual-stack server
+		{Name: "v13-dualc-direct", V13: true, SkipHV: true}, // x DTLS 1.3 only server that skips the cookie exchange
+	}
+}
+
+// hs13Dual adjusts the version ranges of the dual-stack variants.
+func hs13Dual(name string, c, s *dtlsConfig) {
+	switch name {
+	case "v13-dualc":
+		c.MinVersion, s.MinVersion = protocol.Version1_2, protocol.Version1_2
+	case "v13-dualc-direct":
+		c.MinVersion = protocol.Version1_2
 	}
 }
 
@@ -364,6 +377,7 @@ func runHs13(t *testing.T, v c02Variant, mask []string, opt hs13Opt) hs13Case {
 		res.Interval = 1000
 	}
 	ccfg, scfg := v.configs(nil, nil)
+	hs13Dual(v.Name, ccfg, scfg)
 	if opt.Interval > 0 {
 		ccfg.FlightInterval, scfg.FlightInterval = opt.Interval, opt.Interval
 	}
